@@ -24,7 +24,7 @@ EC = "eth2/beacon/common/epochs_context.go"
 # (property, name, file, old, new, occurrence index or None=must be unique)
 MUTANTS = [
     ("C06", "refresh256-seg2-offbyone", SH, "if j&0xff == 0xff {", "if j&0xff == 0x00 {", 1),
-    ("C06", "refresh256-seg1-offbyone", SH, "if j&0xff == 0xff {", "if j&0xfe == 0xfe {", 0),
+    ("C06", "refresh256-seg1-offbyone", SH, "if j&0xff == 0xff {", "if j&0xff == 0xfe {", 0),
     ("C06", "mirror1-offbyone", SH, "mirror := (pivot + 1) >> 1", "mirror := pivot >> 1", None),
     ("C06", "mirror2-offbyone", SH, "mirror = (pivot + listSize + 1) >> 1", "mirror = (pivot + listSize) >> 1", None),
     ("C06", "list-pivot-modulus", SH, "pivot := binary.LittleEndian.Uint64(h[:8]) % listSize\n\n",
@@ -61,6 +61,8 @@ MUTANTS = [
      "if v.Activation <= epoch && epoch <= v.Exit {", None),
     ("C07", "proposer-byte-index", PR, "randomByte := h[j]", "randomByte := h[31-j]", None),
     ("C07", "sync-hash-block", SY, "if i%32 == 0 {", "if i%16 == 0 {", None),
+    ("C07", "revert-epc-sync-unwrap", EC, "if wrapped, ok := state.(interface{ Unwrap() BeaconState }); ok {",
+     "if wrapped, ok := state.(interface{ UnwrapX() BeaconState }); ok {", None),
     ("C07", "proposer-domain", PR, "GetSeed(spec, mixes, epoch, DOMAIN_BEACON_PROPOSER)",
      "GetSeed(spec, mixes, epoch, DOMAIN_BEACON_ATTESTER)", None),
 ]
